@@ -77,6 +77,34 @@ REG.lemma('C16.foreign-origin',
 
 
 # ------------------------------------------------------------------------------
+# the wiring itself: Session._crosswire_proxy under contract, for every role the
+# session can have - each channel gets exactly one forwarder in each direction
+WireEvt = T.Rec('WireEvt', src=T.Str, tgt=T.Str, from_proxy=T.Bool)
+
+def _wired(src, tgt, fp):
+    return ('exists(lambda k: len(old(wire_log)) <= k < len(wire_log) and wire_log[k].src == "%s" and '
+            'wire_log[k].tgt == "%s" and wire_log[k].from_proxy == %s)' % (src, tgt, fp))
+
+REG.spec('session.py:Session._crosswire_proxy',
+    params   = dict(),
+    self     = dict(_role=T.Str, _PRIMARY=T.Str, _AGENT_0=T.Str, _AGENT_N=T.Str, _DEFAULT=T.Str),
+    ghost    = dict(wire_log=T.List(WireEvt)),
+    effects  = {'self.crosswire_pubsub': log_call('wire_log', WireEvt, dict(src='src', tgt='tgt', from_proxy='from_proxy'),
+                                                  params=['src', 'tgt', 'from_proxy'])},
+    modifies = ['wire_log'],
+    raises   = {'AssertionError': 'self._role != self._PRIMARY and self._role != self._AGENT_0'},
+    ensures  = [
+      ('control-messages-leave-this-side-whatever-its-role', _wired('control_pubsub', 'proxy_control_pubsub', False)),
+      ('control-messages-reach-this-side-whatever-its-role', _wired('proxy_control_pubsub', 'control_pubsub', True)),
+      ('state-messages-leave-this-side-whatever-its-role',   _wired('state_pubsub', 'proxy_state_pubsub', False)),
+      ('state-messages-reach-this-side-whatever-its-role',   _wired('proxy_state_pubsub', 'state_pubsub', True)),
+      ('one-forwarder-per-channel-and-direction-and-nothing-else', 'len(wire_log) == len(old(wire_log)) + 4'),
+      ('history-kept', 'forall(lambda k: implies(0 <= k < len(old(wire_log)), wire_log[k] == old(wire_log)[k]))'),
+    ],
+    serves   = ['C16'])
+
+
+# ------------------------------------------------------------------------------
 # finite checks: the wiring in Session._crosswire_proxy and the default of the
 # forward flag in the component base classes (read from the AST on every run)
 #
